@@ -4,6 +4,7 @@
 mod coll;
 mod scen;
 mod acc;
+mod packed;
 mod psn;
 mod values;
 mod vtree;
@@ -605,6 +606,9 @@ fn main() {
 			out.flush().unwrap();
 		} else if line.trim() == "ttypes" {
 			writeln!(out, "{}", vtree::list()).unwrap();
+		} else if line.starts_with("pk ") {
+			writeln!(out, "{}", packed::run(&line)).unwrap();
+			out.flush().unwrap();
 		} else if line.starts_with("pq ") {
 			writeln!(out, "{}", psn::run(&line)).unwrap();
 			out.flush().unwrap();
